@@ -81,6 +81,15 @@ def all_shapes(tier, seed):
         if sid == 'mem:p16:24':
             continue          # MEM_LOOKUP_nn exists for 8/16/32/64 only
         out.append((sid, src))
+    # rcl/rcr rotate a register extended by the carry: widths 9, 17 and 33 have their own cases in rot_left/rot_right
+    for w in (9, 17, 33):
+        a, bb = T.I('a', w), T.I('b', w)
+        for op in ('<<<', '>>>'):
+            out.append(('rot:%s:w%d' % (op, w), T.O(op, a, bb)))
+            out.append(('rot:%s:w%d:c1' % (op, w), T.O(op, a, T.C(1, w))))
+            out.append(('rot:%s:w%d:cw' % (op, w), T.O(op, a, T.C(w, w))))
+            out.append(('rot:%s:w%d:compose' % (op, w), T.O(op, "ExprCompose(%s, %s)" % (T.I('r', w - 1), T.I('f', 1)),
+                                                              "ExprCompose(%s, %s)" % (T.I('n', 8), T.C(0, w - 8)))))
     return out
 
 
